@@ -42,3 +42,24 @@ pub open spec fn poly1305_spec(key: Seq<u8>, msg: Seq<u8>) -> Seq<u8> {
 }
 
 } // verus!
+
+verus! {
+
+pub proof fn lemma_nat_to_le_len(v: nat, len: nat)
+    ensures
+        nat_to_le(v, len).len() == len,
+    decreases len,
+{
+    if len > 0 {
+        lemma_nat_to_le_len(v / 256, (len - 1) as nat);
+    }
+}
+
+pub proof fn lemma_poly1305_spec_len(key: Seq<u8>, msg: Seq<u8>)
+    ensures
+        poly1305_spec(key, msg).len() == 16,
+{
+    lemma_nat_to_le_len(poly1305_tag_nat(key, msg), 16);
+}
+
+} // verus!
